@@ -95,3 +95,20 @@ Theorem C10_lincode_multi_every_item :
     l_check_all wf items = Ok true -> Forall (fun it => l_check_item wf it = Ok true) items.
 Proof. exact @l_check_all_every_item. Qed.
 Print Assumptions C10_lincode_multi_every_item.
+
+(* the linear-code verifier accepts exactly when: the opened vector (and the well-formedness vector, when enabled) has the row
+   length, every queried position carries an authentic path for that position and a column whose inner products with b (and r)
+   are the symbols of the encoded vectors at that position, and the claimed value is <v, a> *)
+From PC Require Import Schemes.Ligero Schemes.LinCodeList Proofs.LinCodeListFacts.
+Theorem C10_lincode_accepts_iff_relation :
+  forall (FO : FieldOps) (FL : FieldLaws FO) enc wf n_cols cext a b value pf r idx,
+    l_check_e enc wf n_cols cext a b value pf r idx = Ok true <->
+    length (lf_v pf) = n_cols /\
+    (exists out,
+        (if wf then match lf_wf pf with Some w => length w = n_cols /\ out = Some w | None => False end else out = None) /\
+        path_loop cext (lf_cols pf) idx (lf_paths pf) = Ok tt /\
+        ip_loop (match out with Some wfv => [(r, enc wfv); (b, enc (lf_v pf))] | None => [(b, enc (lf_v pf))] end)
+                (lf_cols pf) idx = Ok tt) /\
+    ip (lf_v pf) a = value.
+Proof. exact @l_check_e_accepts_iff. Qed.
+Print Assumptions C10_lincode_accepts_iff_relation.
